@@ -241,6 +241,36 @@ func judge(r *mon.Rec, fam string, wire, next []byte, rng *rand.Rand, onlyPatter
 		r.Violate("C08:output-alias:ToBytes", "modifying the slice returned by ToBytes changes a later encoding", rp)
 		return
 	}
+	// (3b) every encoding is a buffer of its own: a result the caller still holds stays what it was while the same
+	// message, and another message, are encoded again, and no two results share memory
+	e1 := encode(v)
+	e2 := encode(v)
+	var e3 []byte
+	if ov, _, oerr := decode(fam, append([]byte{}, next...)); oerr == nil && len(next) > 0 {
+		e3 = encode(ov)
+	}
+	if !bytes.Equal(e1, keep) {
+		rp.Pattern = "encode-again"
+		r.Violate("C08:output-reused:ToBytes", "the bytes returned by ToBytes changed when ToBytes was called again (on the same and on another message)", rp)
+		return
+	}
+	for i := range e2 {
+		e2[i] ^= 0xa5
+	}
+	for i := range e3 {
+		e3[i] ^= 0x5a
+	}
+	if !bytes.Equal(e1, keep) {
+		rp.Pattern = "write-into-later-encoding"
+		r.Violate("C08:output-shared:ToBytes", "two results of ToBytes share memory: writing into a later one changes an earlier one", rp)
+		return
+	}
+	if e4 := encode(v); !bytes.Equal(e4, keep) || !bytes.Equal(e1, keep) {
+		rp.Pattern = "write-into-later-encoding"
+		r.Violate("C08:output-alias:ToBytes", "writing into earlier results of ToBytes changes a later encoding", rp)
+		return
+	}
+	r.Count("live_encodings_compared", 1)
 	// shape
 	shape := fam
 	nt := false
